@@ -9,6 +9,7 @@ import (
 	"fmt"
 	"math/rand"
 	"sort"
+	"strings"
 
 	"go.sia.tech/core/types"
 	"verifharness/mat"
@@ -21,13 +22,14 @@ type AbsTx struct {
 	Ins  []int  `json:"ins"`
 	Refs []int  `json:"refs"`
 	Outs []int  `json:"outs"`
+	Lo   int    `json:"lo"` // valid while Lo <= height of the tip (root = 0) <= Hi
+	Hi   int    `json:"hi"`
 	W    int    `json:"w"` // weight: small integers in Leg M, the real encoded size when derived from real transactions
 }
 
 type AbsScen struct {
 	Name     string  `json:"name"`
-	Regime   string  `json:"regime"` // "both": v1 and v2 valid; "v2": v2 only
-	V1OK     bool    `json:"v1ok"`
+	Regime   string  `json:"regime"`   // "both": v1 and v2 valid; "v2": v2 only
 	MaxPool  int     `json:"maxpool"`  // the pool is full when the pooled transactions weigh at least this much
 	MaxBlock int     `json:"maxblock"` // weight limit of one block (the assembler cuts the pool there)
 	N        int     `json:"n"`
@@ -68,6 +70,12 @@ const warmBlocks = 3
 // regimeParams: "both" = v2 allowed from height 2, never required within the scenario, ephemeral
 // outputs allowed; "v2" = v2 required from height 2 on.
 func regimeParams(regime string, seed int64) mat.Params {
+	// "boundary:a:r": the histories start BELOW the hardfork heights: allow height = root height + a,
+	// require height = allow height + r
+	var a, r uint64
+	if n, _ := fmt.Sscanf(regime, "boundary:%d:%d", &a, &r); n == 2 {
+		return mat.Params{Allow: warmBlocks + a, Require: warmBlocks + a + r, Final: 200000, Seed: seed}
+	}
 	if regime == "v2" {
 		return mat.Params{Allow: 1, Require: 2, Final: 100000, Seed: seed}
 	}
@@ -88,7 +96,7 @@ func NewScen(regime string, seed int64, warmOps int) *Scen {
 			for k := 0; k < ops; k++ {
 				if regime == "v2" {
 					b.Do("sc2")
-				} else if k%2 == 0 {
+				} else if k%2 == 0 || strings.HasPrefix(regime, "boundary") {
 					b.Do("sc1")
 				} else {
 					b.Do("sc2")
@@ -193,10 +201,31 @@ func blockLeaves(b types.Block) (creates, spends []types.Hash256) {
 	return
 }
 
+// Window returns the real tip heights [lo, hi] at which the transaction can be valid as far as the
+// hardfork regime goes: v2 needs child height >= allow height; v1 needs child height < require
+// height and a tip in the signature-replay epoch (below / from the allow height on) it was signed for.
+func (s *Scen) Window(p *mat.PoolTx) (lo, hi int) {
+	const big = 1_000_000
+	allow, require := int(s.W.N.HardforkV2.AllowHeight), int(s.W.N.HardforkV2.RequireHeight)
+	if p.V2 {
+		return allow - 1, big
+	}
+	lo, hi = -big, require-2
+	if int(p.SigHeight) >= allow {
+		lo = allow
+	} else if allow-1 < hi {
+		hi = allow - 1
+	}
+	if hi > big {
+		hi = big
+	}
+	return
+}
+
 // Abstract derives what the specification sees from the REAL tree and catalogue.
 func (s *Scen) Abstract() AbsScen {
 	n := s.NumAbs()
-	a := AbsScen{Name: s.Name, Regime: s.Regime, V1OK: s.Regime != "v2", N: n, NTx: len(s.Txs), Sets: []any{}, RSets: [][]int{}, Look: []int{}, TxSetC: []int{}}
+	a := AbsScen{Name: s.Name, Regime: s.Regime, N: n, NTx: len(s.Txs), Sets: []any{}, RSets: [][]int{}, Look: []int{}, TxSetC: []int{}}
 	a.MaxPool = int(s.Node(1).L.CS.MaxBlockWeight() * 10) // revalidatePool: txpoolMaxWeight
 	a.MaxBlock = int(s.Node(1).L.CS.MaxBlockWeight())
 	rootH := int(s.Node(1).Height)
@@ -269,7 +298,9 @@ func (s *Scen) Abstract() AbsScen {
 		if p.V2 {
 			w = cs.V2TransactionWeight(p.T2)
 		}
-		a.Tx = append(a.Tx, AbsTx{Kind: kind, Ins: s.leaves(p.Ins), Refs: s.leaves(p.Refs), Outs: s.leaves(p.Outs), W: int(w)})
+		lo, hi := s.Window(p)
+		a.Tx = append(a.Tx, AbsTx{Kind: kind, Ins: s.leaves(p.Ins), Refs: s.leaves(p.Refs), Outs: s.leaves(p.Outs), W: int(w),
+			Lo: lo - rootH, Hi: hi - rootH})
 	}
 	if a.Tx == nil {
 		a.Tx = []AbsTx{}
